@@ -239,6 +239,7 @@ pub fn check<W: World>(w: &W, tier: Tier, seed: u64) -> i32 {
         .and_then(|s| s.parse().ok())
         .unwrap_or(n_runs);
     let deadline = start + Duration::from_secs(wall_cap);
+    super::set_replay_tier(tier);
     // recorded known findings may be stepped over by the world, so that runs continue past them
     super::set_tolerated_signatures(
         load_known()
@@ -563,6 +564,7 @@ pub fn replay<W: World>(w: &W, path: &Path) -> i32 {
             return EXIT_HARNESS;
         }
     };
+    super::set_replay_tier(t.tier);
     // like check(): step over recorded known findings - except the one this file itself records
     let own_signature = t.violation.as_ref().map(|v| v.signature.clone());
     super::set_tolerated_signatures(
